@@ -189,6 +189,16 @@ pub struct FuzzSpec
 
 // ------------------------------------------------------------------ worker
 
+/// A stream may name the class of the case it is about to run (for example
+/// "planted cycle" / "acyclic"); if the compiler then kills the worker, the
+/// class becomes part of the crash signature, so that a recorded crash of one
+/// class cannot excuse a crash of another.
+pub fn note_case_class(class: &str)
+{
+	eprintln!("CASE-CLASS {}", class);
+}
+
+
 /// Best effort: name the penne function in which a segmentation fault (or a
 /// stack overflow) happened, so that crash signatures are specific.
 extern "C" fn on_segv(_sig: libc::c_int)
@@ -212,9 +222,17 @@ extern "C" fn on_segv(_sig: libc::c_int)
 		}
 	}
 	let first = frames.first().copied().unwrap_or("?");
-	// deep recursion shows as the same function over and over
-	let repeats = frames.iter().filter(|f| **f == first).count();
-	eprintln!("SEGV in {}{}", first, if repeats > 50 { " (deep recursion)" } else { "" });
+	// deep recursion: hundreds of compiler frames on the stack. Where exactly
+	// the stack ran out is an accident of the build; it is not named.
+	if frames.len() >= 400
+	{
+		eprintln!("SEGV deep recursion ({} ...)", first);
+		eprintln!("thread has overflowed its stack");
+	}
+	else
+	{
+		eprintln!("SEGV in {}", first);
+	}
 	unsafe { libc::_exit(139) };
 }
 
@@ -683,6 +701,17 @@ pub fn normalize_panic(loc: &str, msg: &str) -> String
 
 fn classify_death(status: Option<std::process::ExitStatus>, tail: &str) -> String
 {
+	let base = classify_death_base(status, tail);
+	// the class noted last by the stream, if any (see note_case_class)
+	match tail.lines().rev().find(|l| l.starts_with("CASE-CLASS "))
+	{
+		Some(l) => format!("{} [case: {}]", base, l[11..].trim()),
+		None => base,
+	}
+}
+
+fn classify_death_base(status: Option<std::process::ExitStatus>, tail: &str) -> String
+{
 	use std::os::unix::process::ExitStatusExt;
 	if let Some(line) = tail.lines().rev().find(|l| l.starts_with("PANIC "))
 	{
@@ -696,6 +725,10 @@ fn classify_death(status: Option<std::process::ExitStatus>, tail: &str) -> Strin
 		};
 		let base = normalize_panic(loc, msg);
 		return if func.is_empty() || func == "?" { base } else { format!("{} in {}", base, func) };
+	}
+	if tail.lines().rev().any(|l| l.starts_with("SEGV deep recursion"))
+	{
+		return "stack-overflow".to_string();
 	}
 	if let Some(line) = tail.lines().rev().find(|l| l.starts_with("SEGV in "))
 	{
